@@ -189,6 +189,19 @@ class RealBackend:
 
         warnings.filterwarnings("ignore")
         import torch
+        import types
+
+        if "scipy" not in sys.modules:
+            try:
+                import scipy.linalg  # noqa: F401
+            except ImportError:
+                # qucumber.utils.training_statistics imports scipy.linalg.sqrtm but never calls it; scipy is not installed
+                sl = types.ModuleType("scipy.linalg")
+                sl.sqrtm = None
+                sp = types.ModuleType("scipy")
+                sp.linalg = sl
+                sys.modules["scipy"] = sp
+                sys.modules["scipy.linalg"] = sl
         import qucumber
         import qucumber.nn_states.neural_state as ns
 
